@@ -1,7 +1,7 @@
 """rule registry: groups, property -> rule ids"""
 import importlib
 
-GROUPS = ['rules_send', 'rules_recv', 'rules_wait', 'rules_pop', 'rules_fut', 'rules_mem', 'rules_misc', 'rules_extra', 'rules_extra2']
+GROUPS = ['rules_send', 'rules_recv', 'rules_wait', 'rules_pop', 'rules_fut', 'rules_mem', 'rules_misc', 'rules_extra', 'rules_extra2', 'rules_r10']
 
 
 def run_group(ctx, name):
